@@ -539,6 +539,14 @@ func (w *Writer) mapValue(v reflect.Value, path string) {
 			}
 			return a.Length < b.Length
 		})
+	} else if t == tAccOutput {
+		// ordered by NUMERIC service id, then by hash (the order AccumulatedServiceOutput.Encode uses since bedc373)
+		sort.Slice(es, func(i, j int) bool {
+			if a, b := leUint(es[i].kb[:4]), leUint(es[j].kb[:4]); a != b {
+				return a < b
+			}
+			return bytes.Compare(es[i].kb[4:], es[j].kb[4:]) < 0
+		})
 	} else if numeric {
 		sort.Slice(es, func(i, j int) bool { return es[i].kn < es[j].kn })
 	} else {
